@@ -73,6 +73,7 @@ var grayTimeouts = map[string][]string{
 }
 
 func TestC12(t *testing.T) {
+	enumerateC12(t)
 	rapid.Check(t, func(t *rapid.T) {
 		o := genOpts{maxBlob: 4, noText: true, methods: []string{"Unary", "UnaryGet", "Params", "ServerStream", "ClientStream"}}
 		sc := genScenario(t, o)
